@@ -328,6 +328,9 @@ func c15RunCase(f []string) string {
 	if f[0] == "cli" {
 		return c15Cli(f)
 	}
+	if f[0] == "api" {
+		return c15Api(f)
+	}
 	if f[0] != "follow" || len(f) < 5 {
 		return "bad-op"
 	}
@@ -670,7 +673,7 @@ func c15Stats(cases []string) map[string]int {
 			c15TraceStats(st, c)
 			continue
 		}
-		if len(f) >= 2 && (f[0] == "new" || f[0] == "cli") {
+		if len(f) >= 2 && (f[0] == "new" || f[0] == "cli" || f[0] == "api") {
 			st["wiring."+f[0]]++
 			continue
 		}
